@@ -33,8 +33,8 @@ from redress.errors import ErrorClass  # noqa: E402
 
 REL = Fraction(1, 2 ** 40)
 EPS = Fraction(1, 2 ** 1060)
-REL_S = f"1/{2 ** 40}"
-EPS_S = f"1/{2 ** 1060}"
+REL_S = "2^-40"
+EPS_S = "2^-1060"
 INF = math.inf
 NAN = math.nan
 U1M = 1.0 - 2.0 ** -53          # largest double below 1
@@ -237,7 +237,7 @@ def gen_jitter_cases(tier, rng):
                 for (b, m) in PAIRS:
                     for u in DRAWS:
                         cases.append(mk_jitter(k, b, m, a, u, "direct"))
-        n_rand = 12000
+        n_rand = 17000
     else:
         # every attempt exhaustively, pairs and draws rotated so that every pair meets every draw
         i = 0
@@ -269,7 +269,7 @@ def gen_decor_cases(tier, rng):
             for p in PREVS:
                 for u in DRAWS:
                     cases.append(mk_decor(b, m, p, u, "direct"))
-        n_rand = 12000
+        n_rand = 17000
     else:
         i = 0
         for (b, m) in PAIRS:
@@ -386,7 +386,7 @@ def gen_adaptive_cases(tier, rng):
                             (60.0, 0.9, 2.0, 1.0), (60.0, 0.9, 1.0, 5.0), (DENORM, DENORM, 1.0, 1.0),
                             (60.0, 1.0, 1.0, 1.0), (60.0, 0.9, 1.0 - 2.0 ** -53, 5.0)]:
         cases.append(mk_adaptive_invalid(w, ts, mn, mx))
-    n_hist = 1500 if tier == "thorough" else 110
+    n_hist = 2000 if tier == "thorough" else 110
     for _ in range(n_hist):
         w = rng.choice(AD_WINDOWS)
         ts = rng.choice(AD_TS + [rng.uniform(0.01, 1.0)])
@@ -957,7 +957,8 @@ def run(tier: str, seed: int) -> dict:
     samples = []
     step = max(1, len(cases) // 8)
     for c in cases[::step][:8]:
-        samples.append({"input": describe(c), "driver_lines": c["lines"][:3], "model_answers": c["answers"][:3],
+        samples.append({"input": describe(c), "driver_lines": [ln[:240] for ln in c["lines"][:3]],
+                        "model_answers": [a[:240] for a in c["answers"][:3]],
                         "implementation": r(c.get("impl", c.get("outs", [])[:3]))})
 
     return {
